@@ -41,6 +41,8 @@ Theorem c20_refs_consistent :
   (Rabs (ref_wien_displacement_constant / (ref_planck * ref_speed_of_light / (wien_x * ref_boltzmann_constant)) - 1) <= tol_identity) /\
   (Rabs (ref_wien_displacement_constant / (ref_planck * ref_speed_of_light / (4.965114 * ref_boltzmann_constant)) - 1) <= 1e-7) /\
   (Rabs (wien_x - 5 * (1 - exp (- wien_x))) <= 1e-12) /\
-  (Rabs (ref_richardson_constant / 1.20173e6 - 1) <= 1e-5).
+  (Rabs (ref_richardson_constant / 1.20173e6 - 1) <= 1e-5) /\
+  (ref_proton_rest_mass < ref_neutron_rest_mass /\ Rabs (ref_neutron_rest_mass / ref_proton_rest_mass / 1.00137841931 - 1) <= tol_identity /\ Rabs (ref_proton_rest_mass / ref_electron_rest_mass / 1836.15267343 - 1) <= tol_identity) /\
+  (Rabs (ref_fine_structure_constant / (ref_elementary_charge ^ 2 / (4 * PI * ref_vacuum_permittivity * ref_hbar * ref_speed_of_light)) - 1) <= 1e-8 /\ Rabs (ref_rydberg_constant / (ref_fine_structure_constant ^ 2 * ref_electron_rest_mass * ref_speed_of_light / (2 * ref_planck)) - 1) <= 1e-8 /\ Rabs (ref_rydberg_frequency / (ref_speed_of_light * ref_rydberg_constant) - 1) <= tol_identity /\ Rabs (ref_bohr_radius / (ref_hbar / (ref_electron_rest_mass * ref_speed_of_light * ref_fine_structure_constant)) - 1) <= 1e-8 /\ Rabs (ref_bohr_magneton / (ref_elementary_charge * ref_hbar / (2 * ref_electron_rest_mass)) - 1) <= 1e-8).
 Proof. exact refs_consistent. Qed.
 Print Assumptions c20_refs_consistent.
